@@ -373,4 +373,5 @@ def r_scheduled_is_nonnegative(ctx):
 
 
 RULES = [r_extract, r_horizon_report, r_calendar, r_view_symmetry, r_marker, r_requirement_interval, r_horizon_bounds_ends,
-         r_unscheduled_is_parked, r_scheduled_is_nonnegative]
+         r_unscheduled_is_parked, r_scheduled_is_nonnegative,
+         lambda ctx: __import__("rules.exports", fromlist=["x"]).r_report_readonly(ctx)]
